@@ -174,14 +174,203 @@ def from_imports(src):
     return ast.unparse(ast.fix_missing_locations(tree)) + '\n'
 
 
+class ToFString(ast.NodeTransformer):
+    """'..%s..' % x  and  '..{}..'.format(x)  ->  f-string (plain placeholders only, outside logging calls)"""
+
+    def visit_Call(self, node):
+        f = node.func
+        if isinstance(f, ast.Attribute) and isinstance(f.value, ast.Name) and f.value.id in ('logger', 'logging'):
+            return node                                   # lazy %-formatting of the logging module is not string building
+        self.generic_visit(node)
+        return self._conv(node)
+
+    def visit_BinOp(self, node):
+        self.generic_visit(node)
+        return self._conv(node)
+
+    def _conv(self, node):
+        from cfsa.unrefactor import _fmt_parts
+        fp = _fmt_parts(node)
+        if not fp or fp[0] == 'fstr':
+            return node
+        import re
+        vals, pos, k = [], 0, 0
+        for mt in re.finditer(r'\{\{|\}\}|\{((?:![sra])?)((?::[^{}]*)?)\}', fp[1]):
+            if mt.start() > pos:
+                vals.append(ast.Constant(value=fp[1][pos:mt.start()]))
+            pos = mt.end()
+            if mt.group(0) in ('{{', '}}'):
+                vals.append(ast.Constant(value=mt.group(0)[0]))
+                continue
+            if isinstance(fp[2][k], (ast.Constant,)) and isinstance(fp[2][k].value, str) and ("'" in fp[2][k].value or '"' in fp[2][k].value):
+                return node
+            spec = mt.group(2)[1:]
+            vals.append(ast.FormattedValue(value=fp[2][k], conversion={'': -1, '!s': 115, '!r': 114, '!a': 97}[mt.group(1)],
+                                           format_spec=ast.JoinedStr(values=[ast.Constant(value=spec)]) if spec else None))
+            k += 1
+        if pos < len(fp[1]):
+            vals.append(ast.Constant(value=fp[1][pos:]))
+        return ast.copy_location(ast.JoinedStr(values=vals), node)
+
+
+class InTuple(ast.NodeTransformer):
+    """a == x or a == y  ->  a in (x, y)   (same left operand, constant / dotted right operands)"""
+
+    def visit_BoolOp(self, node):
+        self.generic_visit(node)
+        if isinstance(node.op, ast.Or) and all(isinstance(v, ast.Compare) and len(v.ops) == 1 and isinstance(v.ops[0], ast.Eq) and
+                                              isinstance(v.comparators[0], (ast.Constant, ast.Attribute, ast.Name)) for v in node.values):
+            lefts = {ast.unparse(v.left) for v in node.values}
+            if len(lefts) == 1 and not any(isinstance(x, ast.Call) for x in ast.walk(node.values[0].left)):
+                return ast.copy_location(ast.Compare(left=node.values[0].left, ops=[ast.In()],
+                                                     comparators=[ast.Tuple(elts=[v.comparators[0] for v in node.values], ctx=ast.Load())]), node)
+        return node
+
+
+class MakeStatic(ast.NodeTransformer):
+    """private methods that never mention self (and are not overridden / used via super in the module) become @staticmethod"""
+
+    def visit_Module(self, node):
+        names = {}
+        for c in ast.walk(node):
+            if isinstance(c, ast.ClassDef):
+                for st in c.body:
+                    if isinstance(st, ast.FunctionDef):
+                        names[st.name] = names.get(st.name, 0) + 1
+        self.unique = {n for n, k in names.items() if k == 1}
+        self.generic_visit(node)
+        return node
+
+    def visit_ClassDef(self, node):
+        for st in node.body:
+            if isinstance(st, ast.FunctionDef) and st.name.startswith('_') and not st.name.startswith('__') and st.name in self.unique and not st.decorator_list \
+                    and st.args.args and st.args.args[0].arg == 'self' and not any(isinstance(n, ast.Name) and n.id in ('self', 'super') for x in st.body for n in ast.walk(x)):
+                st.args.args.pop(0)
+                st.decorator_list = [ast.Name(id='staticmethod', ctx=ast.Load())]
+        return node
+
+
+class ExplainTests(ast.NodeTransformer):
+    """if <comparison>:  ->  cond_k = <comparison>; if cond_k:   (plain `if`, not elif, not in class bodies)"""
+
+    def __init__(self):
+        self.k = 0
+
+    def _block(self, stmts):
+        out = []
+        for st in stmts:
+            st = self.visit(st)
+            if isinstance(st, ast.If) and isinstance(st.test, (ast.Compare, ast.BoolOp)) and not any(isinstance(n, (ast.NamedExpr, ast.Await, ast.Yield)) for n in ast.walk(st.test)):
+                self.k += 1
+                nm = 'cond_%d' % self.k
+                out.append(ast.copy_location(ast.Assign(targets=[ast.Name(id=nm, ctx=ast.Store())], value=st.test, lineno=st.lineno), st))
+                st.test = ast.copy_location(ast.Name(id=nm, ctx=ast.Load()), st.test)
+            out.append(st)
+        return out
+
+    def visit_FunctionDef(self, node):
+        self._in(node)
+        return node
+
+    def _in(self, node):
+        for f in ('body', 'orelse', 'finalbody'):
+            b = getattr(node, f, None)
+            if isinstance(b, list) and b and isinstance(b[0], ast.stmt):
+                if f == 'orelse' and isinstance(node, ast.If) and len(b) == 1 and isinstance(b[0], ast.If):
+                    self._in(b[0])                         # elif: leave the test in place
+                    continue
+                setattr(node, f, self._block(b))
+        for h in getattr(node, 'handlers', []) or []:
+            h.body = self._block(h.body)
+
+    def visit_If(self, node):
+        self._in(node)
+        return node
+
+    visit_For = visit_While = visit_With = visit_Try = visit_If
+
+    def visit_ClassDef(self, node):
+        for st in node.body:
+            if isinstance(st, ast.FunctionDef):
+                self.visit(st)
+        return node
+
+
+class TupleBind(ast.NodeTransformer):
+    """a = c1; b = c2 (adjacent, distinct local names, constant values)  ->  a, b = c1, c2"""
+
+    def _block(self, stmts):
+        out, i = [], 0
+        while i < len(stmts):
+            a = stmts[i]
+            b = stmts[i + 1] if i + 1 < len(stmts) else None
+
+            def simple(x):
+                return isinstance(x, ast.Assign) and len(x.targets) == 1 and isinstance(x.targets[0], ast.Name) and isinstance(x.value, ast.Constant)
+            if simple(a) and simple(b) and a.targets[0].id != b.targets[0].id:
+                out.append(ast.copy_location(ast.Assign(targets=[ast.Tuple(elts=[a.targets[0], b.targets[0]], ctx=ast.Store())],
+                                                        value=ast.Tuple(elts=[a.value, b.value], ctx=ast.Load()), lineno=a.lineno), a))
+                i += 2
+                continue
+            out.append(a)
+            i += 1
+        return out
+
+    def visit_FunctionDef(self, node):
+        self.generic_visit(node)
+        for n in ast.walk(node):
+            for f in ('body', 'orelse', 'finalbody'):
+                b = getattr(n, f, None)
+                if isinstance(b, list) and b and isinstance(b[0], ast.stmt) and not isinstance(n, ast.ClassDef):
+                    setattr(n, f, self._block(b))
+        return node
+
+
+class NameConstants(ast.NodeTransformer):
+    """integer literals >= 10 inside function bodies get module-level names (_K_<value>) defined right after the imports"""
+
+    def __init__(self):
+        self.used = {}
+        self.depth = 0
+
+    def visit_FunctionDef(self, node):
+        self.depth += 1
+        node.body = [self.visit(x) for x in node.body]
+        self.depth -= 1
+        return node
+
+    def visit_Constant(self, node):
+        if self.depth and isinstance(node.value, int) and not isinstance(node.value, bool) and node.value >= 10:
+            self.used[node.value] = '_K_%d' % node.value
+            return ast.copy_location(ast.Name(id=self.used[node.value], ctx=ast.Load()), node)
+        return node
+
+    def visit_JoinedStr(self, node):
+        return node
+
+    def finish(self, tree):
+        i = 0
+        while i < len(tree.body) and (isinstance(tree.body[i], (ast.Import, ast.ImportFrom)) or
+                                      (isinstance(tree.body[i], ast.Expr) and isinstance(tree.body[i].value, ast.Constant)) or
+                                      isinstance(tree.body[i], ast.Try) or
+                                      (isinstance(tree.body[i], ast.Assign) and ast.unparse(tree.body[i].targets[0]) in ('__author__', '__all__', 'logger'))):
+            i += 1
+        tree.body[i:i] = [ast.Assign(targets=[ast.Name(id=nm, ctx=ast.Store())], value=ast.Constant(value=v), lineno=1) for v, nm in sorted(self.used.items())]
+        return tree
+
+
 def transform(src, kind):
     if kind == 'fromimport':
         return from_imports(src)
     if kind == 'roundtrip':
         return roundtrip(src)
     tree = ast.parse(src)
-    t = {'logging': AddLogging, 'rename': RenameLocals, 'swap': SwapCompare, 'aug': AugToAssign, 'invert': InvertIf, 'nest': NestIf, 'demorgan': DeMorgan}[kind]()
-    tree = ast.fix_missing_locations(t.visit(copy.deepcopy(tree)))
+    t = {'logging': AddLogging, 'rename': RenameLocals, 'swap': SwapCompare, 'aug': AugToAssign, 'invert': InvertIf, 'nest': NestIf, 'demorgan': DeMorgan,
+         'fstring': ToFString, 'intuple': InTuple, 'static': MakeStatic, 'explain': ExplainTests, 'tuplebind': TupleBind, 'constname': NameConstants}[kind]()
+    tree = t.visit(copy.deepcopy(tree))
+    if kind == 'constname':
+        tree = t.finish(tree)
+    tree = ast.fix_missing_locations(tree)
     return ast.unparse(tree) + '\n'
 
 
